@@ -162,12 +162,6 @@ struct KnownDefect {
     std::string observed;
 };
 static std::vector<KnownDefect> KNOWN_DEFECTS = {
-    {"fragment-self-insert-hang",
-     "fragment.appendChild/insertBefore/replaceChild(fragment itself) with a non-empty fragment never returns: DOMParentNode::insertBefore does not "
-     "reject newChild==this (the ancestor walk starts above this) and then moves the fragment's children into itself forever",
-     [](const RDom& d, const Opn& o) { return (o.code == OP_APPEND || o.code == OP_INSERT || o.code == OP_REPLACE) && o.a == o.t && d.n[o.t].type == FRAG && !d.n[o.t].kids.empty() &&
-                                             !(o.code != OP_APPEND && o.b != -1 && d.n[o.b].parent != o.t); },
-     mkOp(OP_APPEND, 8, 8)},
     {"document-null-child-crash",
      "document.appendChild/insertBefore(null, ..) and document.replaceChild(.., null) dereference the null pointer (DOMDocumentImpl::insertBefore / "
      "replaceChild call newChild->getNodeType() / oldChild->getNodeType() before DOMParentNode's null check)",
@@ -237,7 +231,7 @@ struct Trans {
     enum { EXC_OK, SAME, NEW, VIOL } res = EXC_OK;
     bool dirty = false;           // the world can no longer be used for the next transition of the same state
     std::string kind, detail, expected, observed;
-    std::string key;              // key after the transition (SAME / NEW)
+    H128 h;                       // state hash after the transition (SAME / NEW)
     int exc = 0;
 };
 static std::string errSet(const Expect& e) {
@@ -246,7 +240,8 @@ static std::string errSet(const Expect& e) {
     if (e.okToo) s += "|success";
     return s.empty() ? "success" : s;
 }
-static std::string keyOf(World& w) { KeyBuilder kb(w); return kb.build(N_ORIG); }
+static std::string keyOf(World& w) { KeyBuilder kb(w, N_ORIG); return kb.text(); }
+static H128 hashOf(World& w) { KeyBuilder kb(w, N_ORIG); H128 h; kb.digest(h.a, h.b); return h; }
 static std::string firstDiff(const std::string& a, const std::string& b) {
     size_t pa = 0, pb = 0;
     while (pa < a.size() || pb < b.size()) {
@@ -259,7 +254,7 @@ static std::string firstDiff(const std::string& a, const std::string& b) {
 }
 
 // key0 / sig0: canonical key and quick signature of the state the world is in before the call
-static void step(World& w, const std::string& key0, uint64_t sig0, const Opn& op, Trans& tr) {
+static void step(World& w, const std::string& key0, const H128& h0, uint64_t sig0, const Opn& op, Trans& tr) {
     std::string opn = OpName[op.code];
     // pre-state facts used for root-cause names
     bool treeOp = op.code == OP_APPEND || op.code == OP_INSERT || op.code == OP_REPLACE;
@@ -317,8 +312,8 @@ static void step(World& w, const std::string& key0, uint64_t sig0, const Opn& op
     }
     if (e.hasStr && o.str != e.str) { viol(opn + ":return-string", "returned '" + o.str + "' expected '" + e.str + "'"); return; }
     if (e.retData != -2 && (o.data != nullptr) != (e.retData != 0)) { viol(opn + ":return-userdata", ""); return; }
-    tr.key = keyOf(w);
-    tr.res = tr.key == key0 ? Trans::SAME : Trans::NEW;
+    tr.h = hashOf(w);
+    tr.res = tr.h == h0 ? Trans::SAME : Trans::NEW;
     tr.dirty = tr.res == Trans::NEW;
 }
 
@@ -349,8 +344,12 @@ template <class F> static Sbx sandbox(F f, int timeout_s) {
     int st = 0; waitpid(p, &st, 0);
     {
         FILE* ef = fopen(errPath.c_str(), "r");
-        if (ef) { char eb[600]; size_t en = fread(eb, 1, sizeof eb - 1, ef); eb[en] = 0; r.err = eb; fclose(ef); }
+        if (ef) { char eb[1500]; size_t en = fread(eb, 1, sizeof eb - 1, ef); eb[en] = 0; r.err = eb; fclose(ef); }
         unlink(errPath.c_str());
+        {   // keep the line that names the error
+            size_t at = r.err.find("runtime error"); if (at == std::string::npos) at = r.err.find("ERROR: ");
+            if (at != std::string::npos) { size_t ls = r.err.rfind('\n', at); r.err = r.err.substr(ls == std::string::npos ? 0 : ls + 1); }
+        }
         size_t nl = r.err.find('\n'); if (nl != std::string::npos) r.err.resize(nl);
         size_t sl = r.err.rfind('/'); size_t sp = r.err.find(' ');   // strip the directory of "path/file.cpp:line:col: runtime error ..."
         if (sl != std::string::npos && (sp == std::string::npos || sl < sp)) r.err = r.err.substr(sl + 1);
@@ -412,7 +411,8 @@ static void expandCase(uint64_t idx, Ctx& c) {
     if (!replay(*w, s, &err)) { note("harness_replay_failed", 1); if (sf) fflush(sf); return; }
     std::string key0 = keyOf(*w);
     uint64_t sig0 = quickSig(*w);
-    if (!(hash128(key0) == s.h)) { note("harness_replay_key_mismatch", 1); if (sf) fflush(sf); return; }
+    H128 h0 = hashOf(*w);
+    if (!(h0 == s.h)) { note("harness_replay_key_mismatch", 1); if (sf) fflush(sf); return; }
     std::vector<Opn> ops;
     genOps(w->ref.d, ops);
     uint64_t slot[S_N] = {0};
@@ -424,7 +424,7 @@ static void expandCase(uint64_t idx, Ctx& c) {
         if (g_prog && xv::g_worker >= 0) g_prog[idx] = (uint32_t)i;
         Trans tr;
         double c0 = c.verbose ? cpu() : 0;
-        step(*w, key0, sig0, op, tr);
+        step(*w, key0, h0, sig0, op, tr);
         if (c.verbose) tStep[tr.res] += cpu() - c0;
         slot[S_TRANS]++;
         switch (tr.res) {
@@ -432,7 +432,7 @@ static void expandCase(uint64_t idx, Ctx& c) {
         case Trans::SAME: slot[S_SAME]++; slot[S_OK + op.code]++; sig0 = quickSig(*w); break;   // the node table may have changed (e.g. an attribute value node was replaced)
         case Trans::NEW: {
             slot[S_NEW]++; slot[S_OK + op.code]++;
-            H128 h = hash128(tr.key);
+            H128 h = tr.h;
             if (!g_visited.count(h) && g_localNew.insert(h).second && sf) {
                 fprintf(sf, "S\t%s\t%llu\t%zu", hex128(h).c_str(), (unsigned long long)idx, i);
                 if (!g_finalLayer) opFields(sf, op);
@@ -571,7 +571,7 @@ static void reportInstance(const State& s, const Opn& op, size_t opIdx, const st
     std::string key0 = keyOf(w);
     std::string ops = opStr(w.ref.d, op);
     Trans tr;
-    step(w, key0, quickSig(w), op, tr);
+    step(w, key0, hashOf(w), quickSig(w), op, tr);
     if (c.verbose) {
         printf("history (op indices %s):\n", idxStr(s.idx).c_str());
         World t2; t2.buildUniverse(); Ref r = t2.ref;
@@ -650,7 +650,22 @@ static std::vector<uint16_t> parseIdxList(const std::string& s) {
     return r;
 }
 
+// The explorer allocates and frees millions of small blocks (a world per state-changing transition).  On this VM ASan's quarantine
+// makes every malloc/free pair 20-80 times more expensive (measured: 0.35 us without, 7-28 us with the orchestrator's 8 MB quarantine),
+// so the driver re-executes itself once with a minimal quarantine.  Freed memory stays poisoned until it is reused, DOM nodes live in
+// per-document pools that ASan does not track individually anyway, and all other checks (redzones, UBSan) are unaffected.
+static void reexecWithLeanQuarantine(char** argv) {
+    if (getenv("C13_LEAN_QUARANTINE")) return;
+    const char* o = getenv("ASAN_OPTIONS");
+    std::string s = o ? o : "";
+    s += ":quarantine_size_mb=0:thread_local_quarantine_size_kb=16";
+    setenv("ASAN_OPTIONS", s.c_str(), 1);
+    setenv("C13_LEAN_QUARANTINE", "1", 1);
+    execv("/proc/self/exe", argv);
+}
+
 int main(int argc, char** argv) {
+    reexecWithLeanQuarantine(argv);
     Args a(argc, argv);
     xml_init();
     int depth = (int)a.num("depth", 1);
@@ -690,7 +705,7 @@ int main(int argc, char** argv) {
         std::vector<uint16_t> h = hs == "1" || hs == "-" ? std::vector<uint16_t>() : parseIdxList(hs);
         State s; Ref ref;
         if (!stateFromIndices(h, h.size(), s, ref)) { printf("bad history\n"); return 2; }
-        { World w; std::string err; if (!replay(w, s, &err)) { printf("replay failed %s\n", err.c_str()); return 2; } s.h = hash128(keyOf(w)); }
+        { World w; std::string err; if (!replay(w, s, &err)) { printf("replay failed %s\n", err.c_str()); return 2; } s.h = hashOf(w); }
         g_frontier.push_back(s);
         Ctx c; c.verbose = true;
         expandCase(0, c);
@@ -728,7 +743,7 @@ int main(int argc, char** argv) {
         Cmp c(w); std::string sl, dt;
         if (!c.compareAll() || !invariants(w, sl, dt)) { fprintf(stderr, "initial universe does not match the reference: %s %s / %s %s\n", c.slug.c_str(), c.detail.c_str(), sl.c_str(), dt.c_str()); return 2; }
         std::string k = keyOf(w);
-        init.h = hash128(k);
+        init.h = hashOf(w);
         g_samples.push_back("{\"initial_state_key\":" + jstr(k) + "}");
         std::vector<Opn> ops; genOps(w.ref.d, ops);
         g_total["alphabet_transitions_of_initial_state"] = ops.size();
@@ -751,7 +766,7 @@ int main(int argc, char** argv) {
         std::string lout = g_sideBase + ".json";
         layerSizes.push_back(g_frontier.size());
         Runner R; R.name = "layer" + std::to_string(layer); R.total = g_frontier.size(); R.fn = expandCase; R.workers = workers; R.out = lout;
-        if (a.has("case-timeout")) R.case_timeout_s = (double)a.num("case-timeout");
+        R.case_timeout_s = a.has("case-timeout") ? (double)a.num("case-timeout") : 90;
         if (deadline > 0) R.deadline_s = std::max(1.0, deadline - (now - t0));
         R.describe = [](uint64_t i) { return "{\"history\":" + histJson(g_frontier[i]) + "}"; };
         for (int w = 0; w < 64; w++) unlink((g_sideBase + ".w" + std::to_string(w)).c_str());
@@ -774,6 +789,7 @@ int main(int argc, char** argv) {
         // merge side files
         struct Succ { uint64_t cs; size_t oi; Opn op; };
         std::map<H128, Succ> succ;
+        uint64_t finalNew = 0;
         for (int w = 0; w < 64; w++) {
             std::string p = g_sideBase + ".w" + std::to_string(w);
             FILE* f = fopen(p.c_str(), "r");
@@ -791,8 +807,9 @@ int main(int argc, char** argv) {
                 if (fl[0] == "S") {
                     if (fl[1].size() != 32) { g_total["harness_malformed_side_line"]++; continue; }
                     H128 h; h.a = strtoull(fl[1].substr(0, 16).c_str(), nullptr, 16); h.b = strtoull(fl[1].substr(16).c_str(), nullptr, 16);
+                    if (g_finalLayer) { if (g_visited.insert(h).second) finalNew++; continue; }   // last layer: only the number of distinct new states is needed
                     Succ s{cs, oi, Opn()};
-                    if (!g_finalLayer && !rdOp(4, s.op)) continue;
+                    if (!rdOp(4, s.op)) continue;
                     auto it = succ.find(h);
                     if (it == succ.end() || std::make_pair(cs, oi) < std::make_pair(it->second.cs, it->second.oi)) succ[h] = s;
                 } else if (fl[0] == "V") {
@@ -819,7 +836,7 @@ int main(int argc, char** argv) {
             ns.ops.push_back(sc.op); ns.idx.push_back((uint16_t)sc.oi); ns.h = o.second;
             next.push_back(std::move(ns));
         }
-        g_total["layer" + std::to_string(layer) + "_new_states"] = order.size();
+        g_total["layer" + std::to_string(layer) + "_new_states"] = g_finalLayer ? finalNew : order.size();
         if (!deadlineHit) completedDepth = layer + 1;
         if (layer == 0 && !g_frontier.empty() && g_samples.size() < 4 && !next.empty()) g_samples.push_back("{\"history\":" + histJson(next[next.size() / 2]) + ",\"state_hash\":" + jstr(hex128(next[next.size() / 2].h)) + "}");
         g_frontier.swap(next);
